@@ -40,7 +40,10 @@ def patched(target, **names):
 def script(body, **subst):
     """Build a replay script.  The script must print REPLAY-CONFIRMED iff the real
     code misbehaves on the witness."""
-    s = textwrap.dedent(body)
+    lines = body.split("\n")
+    first = next((l for l in lines if l.strip()), "")
+    ind = first[: len(first) - len(first.lstrip())]
+    s = "\n".join(l[len(ind):] if l.startswith(ind) else l for l in lines)
     for k, v in subst.items():
         s = s.replace("{{" + k + "}}", repr(v))
     return dict(script=s)
